@@ -212,3 +212,48 @@ PROPS["C14"] = {
              + shards(5, "TestC14", 10, mode="poweron", floor=3, weight=2, timeout=3400) + shards(2, "TestC14", 4, mode="factory", floor=2, weight=2, timeout=3400),
     "assumptions": ["the 10^6-bit workflows cost 10-80 s per stream, so only a few tiles per run go through them"],
 }
+
+RULES["C15"] = ("byte strings (128..4000 bytes, >= the test's minimum; odd and even lengths; families uniform, biased, periodic, markov, constant, sparse, run-list, explicit; a few of 125000) x the fifteen tests x their documented parameters. "
+                "oracle (bit-identity, math.Float64bits): byte entry point = bit entry point on the harness's own MSB-first expansion = convenience wrapper; with the standard's default parameter (poker 8, overlapping 5, ones, k=7, d=16, 32x32, forward, "
+                "ApEn 5, LC 500, automatic block length) = registry runner = TestMethodArr[i].Runner for the i-th test of the standard; Round15 = runners 0..14 in order, Round12 = runners 0..11, lengths 15/12; ReadGroup(file) = expansion of the bytes; "
+                "B2bitArr/B2bit/B2Byte round trip. non-trivial: odd byte length or non-uniform content. distinct: hash of the case JSON.")
+PROPS["C15"] = {
+    "level": "exploration",
+    "quick": shards(6, "TestC15", 400, floor=150) + [S("TestC15Sweep", floor=50)],
+    "thorough": shards(14, "TestC15", 5000, floor=1500, timeout=3400) + [S("TestC15Sweep", floor=50)],
+    "assumptions": ["the mapping 'i-th test of the standard' -> exported function is the harness's table (GM/T 0005-2021 numbering)"],
+}
+
+RULES["C16"] = ("every one of the fifteen tests x its documented parameters on extreme sequences: constant 0/1, alternating, single transition at a drawn position, bias 0.001..0.999, exactly balanced, sparse, uniform with a long run, periodic, markov, forced-excursion walk, run-list, tone, "
+                "explicit bits; lengths from the test's minimum (mixture incl. minimum..+3 and boundaries) and a deterministic sweep at the minimum and at 10^6 bits (thorough: 10^7; DFT <= 4*10^6). Half of the cases also go through the registry runner. "
+                "oracle: no NaN/Inf; P,Q (P2,Q2) in [-1e-9,1+1e-9]; two-sided tests |P - 2 min(Q,1-Q)| <= 1e-9; chi-square tests |P-Q| <= 1e-9; Pass == (P >= 0.01) with min(P,P2) for overlapping (|P-0.01| < 1e-12 skipped). "
+                "non-trivial: the statistic saturates (P < 1e-12 or > 1-1e-12) or the content is not uniform. distinct: hash of the case JSON.")
+PROPS["C16"] = {
+    "level": "exploration",
+    "quick": shards(6, "TestC16", 1200, floor=400) + [S("TestC16Sweep", floor=20, env={"VERIF_PART": i, "VERIF_PARTS": 6}) for i in range(6)],
+    "thorough": shards(10, "TestC16", 12000, floor=4000, timeout=3400) + [S("TestC16Sweep", floor=20, env={"VERIF_PART": i, "VERIF_PARTS": 3}) for i in range(3)]
+                + [S("TestC16Sweep", floor=10, env={"VERIF_PART": i, "VERIF_PARTS": 3, "VERIF_BIG": 1}, timeout=3400, mem_gb=60) for i in range(3)],
+    "assumptions": ["DFT above 2^22 points is not executed"],
+}
+
+RULES["C17"] = (_SEQ + "x a transformation admissible for the drawn test: complement (all but rank / linear complexity; monobit Q -> 1-Q; longest run of ones <-> zeros), reverse (monobit, runs, runs distribution, autocorrelation, binary derivative, "
+                "overlapping, approximate entropy; cumulative sums forward <-> backward), cyclic rotation by 1 / n-1 / n/2 / a drawn amount (overlapping, approximate entropy), permutation of whole blocks + rewrite of the discarded tail "
+                "(block frequency, poker, longest run, rank, linear complexity; at least 3 blocks); sweep: every (test, parameter, transformation) at 20000 and 10^6+3 bits. oracle: metamorphic equality within 1e-9. "
+                "non-trivial: transformed sequence differs from the original and P inside (1e-12,1-1e-12). distinct: hash of the case JSON.")
+PROPS["C17"] = {
+    "level": "exploration",
+    "quick": shards(6, "TestC17", 1200, floor=400) + [S("TestC17Sweep", floor=5, env={"VERIF_PART": i, "VERIF_PARTS": 8}) for i in range(8)],
+    "thorough": shards(8, "TestC17", 12000, floor=4000, timeout=3400) + [S("TestC17Sweep", floor=5, env={"VERIF_PART": i, "VERIF_PARTS": 8}) for i in range(8)],
+    "assumptions": ["rank and linear complexity are not asserted under complement or reversal (the property does not list them)"],
+}
+
+RULES["C18"] = ("a plan of 2..64 goroutines, each assigned a drawn test (the fifteen registry tests through runner / byte entry point / bit entry point with a documented parameter, Round12, Round15) and one of 1..4 shared inputs "
+                "(1200..4000 bytes and their bit expansions; uniform, biased, markov, periodic, sparse), GOMAXPROCS in {2,4,16}. oracle: every task computed alone first, then once more (determinism, bit-identical), then all released from a barrier: "
+                "each concurrent result bit-identical to the solitary one, every input slice equal to its snapshot afterwards; the same check also runs in a -race binary (a race report is a violation). "
+                "non-trivial: at least two goroutines share an input and at least two distinct tests run. distinct: hash of the case JSON.")
+PROPS["C18"] = {
+    "level": "exploration",
+    "quick": shards(4, "TestC18", 60, floor=20) + shards(3, "TestC18", 25, race=True, floor=8, weight=3),
+    "thorough": shards(8, "TestC18", 1200, floor=400, timeout=3400) + shards(6, "TestC18", 300, race=True, floor=100, weight=2, timeout=3400),
+    "assumptions": ["interleavings are sampled (barrier release, GOMAXPROCS), not enumerated", "the race detector only sees races on executed paths"],
+}
